@@ -92,7 +92,7 @@ def execute(pool, t):
         x = reg(t[1])
         if kind_of(x) != "E": raise Na()
         return call(M.Expression, "mk_not", x)
-    if ins == "conv":
+    if ins in ("conv", "bigconv"):
         x = reg(t[2]); k = kind_of(x); tgt = t[1]
         if tgt == k: return x
         if k == "E": return call(x, "to_table") if tgt == "T" else call(x, "to_bdd")
